@@ -36,7 +36,8 @@ CLAIMED['C17'] = dict(
          'body = that format\'s exposition of the registry restricted to name[] (body_is_restricted_exposition), WSGI = ASGI = MetricsHandler on every GET '
          '(frontends_agree, wsgi_asgi_agree), OPTIONS/405 without collecting. Literals, comparison operators and per-front-end parameter extraction are '
          're-extracted from exposition.py/asgi.py each run; the three real front-ends are driven in-process on ~3.5·10^3 requests (quick) with an independent oracle.',
-    note="Scope limit: the three-way agreement is proved and tested for request targets without a raw '#' (not a valid RFC 3986 query character; with one, MetricsHandler — urlparse cuts at '#' — can differ from WSGI/ASGI: kernel-checked example raw_hash_in_target_differs; such requests are generated and counted under documented_limits). Header values are BYTES at the front-end boundary (ASGI codec extracted; WSGI/http.server latin-1 views trusted). Repeated Accept field lines out of scope. Trusted: parse_qs, gzip (abstract injective function); wsgiref/http.server/ASGI servers themselves are outside the model.",
+    note="Scope limit: the three-way agreement is proved and tested for request targets without a raw '#' (not a valid RFC 3986 query character; with one, MetricsHandler — urlparse cuts at '#' — can differ from WSGI/ASGI: kernel-checked example raw_hash_in_target_differs; such requests are generated and counted under documented_limits). Header values are BYTES at the front-end boundary (ASGI codec extracted; WSGI/http.server latin-1 views trusted). Repeated Accept field lines out of scope. Trusted: parse_qs, gzip (abstract injective function); wsgiref/http.server/ASGI servers themselves are outside the model."
+         ' Media-type parameters (version=, charset=, q=, …) and the Accept / Accept-Encoding values real scrapers send are a generated dimension; the Content-Type must be exactly one of the two documented literals and agree with the format read off the body.',
     ref='DESIGN.md 5 C17')
 CLAIMED['C18'] = dict(
     text='The effect skeleton of write_to_textfile (open tmp, generate, encode, write pieces, close, rename; handler: caught class, remove tmp, re-raise; '
@@ -68,7 +69,8 @@ CLAIMED['C02'] = dict(
          '(within a time budget: every schedule with 0 pre-emptions, every schedule with 1 pre-emption where the budget allows — per-program completeness is in the evidence — '
          'plus seeded random schedules; the thorough tier goes further) with an independent oracle, and every observed outcome must lie in the outcome set the model computes.',
     note='PARTIAL by nature: the theorems are about the extracted skeletons; that a thread switch falls only between bytecodes, that += is load/add/store, that the skeleton lists every shared '
-         'access, threading.Lock semantics and mmap visibility across threads are runtime facts sampled by the scheduler harness, not proved.',
+         'access, threading.Lock semantics and mmap visibility across threads are runtime facts sampled by the scheduler harness, not proved.'
+         ' Scheduler programs also construct built-in metrics while other threads collect, and change target info during a collect; finding F38 (Enum registered before _states was set: a concurrent collect raised AttributeError) was repaired in /repo (e025216) and is pinned by the T1 theorem constructors_publish_complete.',
     ref='DESIGN.md 5 C02',
     technique='Lean 4 theorems about an interleaving semantics over lock skeletons extracted from the source (T1) + decidable WellLocked on the generated skeletons + bytecode-level deterministic scheduler on the real code (T2)')
 CLAIMED['C05'] = dict(
@@ -106,14 +108,16 @@ CLAIMED['C10'] = dict(
          'initial size, NaN payloads/-0.0/subnormals compared as raw bytes; writes that compare equal to the stored pair but differ in bits (signed zeros), inherited handles (a second handle on the '
          'file opened mid-history and closed later, as a forked child does) and files re-created under the same name with the same used-bytes header are part of every run.',
     note='Assumption Fits: the file stays below 2^31 bytes (the header is a signed 32-bit int; the real code raises struct.error beyond — observed once, not reproduced per run). Trusted: struct '
-         'little-endian layout, ftruncate zero-extension, UTF-8 facts from Lean core; extractor; sampling correspondence.',
+         'little-endian layout, ftruncate zero-extension, UTF-8 facts from Lean core; extractor; sampling correspondence.'
+         ' Several lazy reader iterators alive at once are advanced in every interleaving (two readers) / at random (three, four).',
     ref='DESIGN.md 5 C10')
 CLAIMED['C11'] = dict(
     text='Every writer operation of the C10 model returns its ordered file effects, the order being re-extracted from the source (skeleton_wellformed: entry before header, one 16-byte slice '
          'per value update, while-loop growth, short-file guard); theorems for every history and EVERY cut point: every_cut_readable (the reader succeeds and returns a prefix state, optionally '
          'plus the in-flight key at zero), every_cut_reopenable, never_written_never_read, value_update_single_effect, one_file_cannot_fail_scrape. The real effect trace is recorded, every '
          'prefix materialised and given to the real reader, collector and reopen; thorough tier kills forked writers with SIGKILL.',
-    note='26 obligations, none partial: every cut of every history for any number of writer generations (every_cut_readable_gen, gen_cut_prefix_state, continuation_from_cut), never_written_never_read stated on the completed prefix + in-flight op, vanished live-gauge files are skipped (removed_files_are_tolerated; any other vanished file would escape: only mark_process_dead removes worker files, and only live-gauge ones), two_cut_read: a reader whose two read() calls see two different cuts still returns only entries published at the first (the one entry crossing the page boundary can get value and timestamp from different cuts). Trusted: one slice assignment and one read() are indivisible; file below 2^31 bytes; one writer per file at a time; json key decoding in the collector not modelled.',
+    note='26 obligations, none partial: every cut of every history for any number of writer generations (every_cut_readable_gen, gen_cut_prefix_state, continuation_from_cut), never_written_never_read stated on the completed prefix + in-flight op, vanished live-gauge files are skipped (removed_files_are_tolerated; any other vanished file would escape: only mark_process_dead removes worker files, and only live-gauge ones), two_cut_read: a reader whose two read() calls see two different cuts still returns only entries published at the first (the one entry crossing the page boundary can get value and timestamp from different cuts). Trusted: one slice assignment and one read() are indivisible; file below 2^31 bytes; one writer per file at a time; json key decoding in the collector not modelled.'
+         ' Besides crashes at every cut point: ERROR RETURNS — truncate / mmap failing with OSError, the same writer continuing; after every operation the live file is read, collected and reopened against the admissible states.',
     ref='DESIGN.md 5 C11')
 CLAIMED['C16'] = dict(
     text='Protocol model of Timer / InprogressTracker / ExceptionCounter (flags re-extracted from context_managers.py) and of decorator.FunctionMaker signature forwarding; theorems by mutual '
@@ -132,7 +136,8 @@ CLAIMED['C08'] = dict(
          'count_eq_inf_bucket, gauge_value_declarative (min/max/mostrecent give an extremal element; mostrecent absent iff never set), help/labels/bounds preserved, live_modes_ignore_dead, order '
          'independence of sums under a commutative monoid. 1–4 simulated processes × 10 modes × ties/NaN/±0/dead and reused pids, collected after every step and judged by an independent reference aggregate; '
          'thorough tier forks real workers.',
-    note="Known finding (listed): C08:gauge-label-named-pid (F24). accumulate_eq_spec_partial holds for listings of files written by values.py in which a metric name has one type and one gauge mode, le texts parse, label names inside a key are distinct (derived for worker directories), no gauge has a label named pid; bucket-key distinctness is derived from injectivity of floatToGoString on the occurring bounds, itself derived from C13 up to three stated repr facts. No-duplicates is stated on the OUTPUT after dict(labels). collect_workers_partial / worker_sums_partial additionally assume the C09 precondition and list each worker's calls contiguously (disjoint identities write disjoint files). series_present_iff states which pid series exist. The store file is abstracted to an ordered map (justified by C10); json key round trip and glob order trusted.",
+    note="Known finding (listed): C08:gauge-label-named-pid (F24). accumulate_eq_spec_partial holds for listings of files written by values.py in which a metric name has one type and one gauge mode, le texts parse, label names inside a key are distinct (derived for worker directories), no gauge has a label named pid; bucket-key distinctness is derived from injectivity of floatToGoString on the occurring bounds, itself derived from C13 up to three stated repr facts. No-duplicates is stated on the OUTPUT after dict(labels). collect_workers_partial / worker_sums_partial additionally assume the C09 precondition and list each worker's calls contiguously (disjoint identities write disjoint files). series_present_iff states which pid series exist. The store file is abstracted to an ordered map (justified by C10); json key round trip and glob order trusted."
+         ' Collections racing with mark_process_dead (files vanishing between listing and reads), sparse collections through one long-lived collector object (worker death + same-pid re-creation inside a span) and merge(files, accumulate=False) (oracle-only) are part of the quick tier.',
     ref='DESIGN.md 5 C08')
 CLAIMED['C09'] = dict(
     text='State-machine model of the MultiProcessValue closure (pid, files, live values; every op begins with the pid check that closes files and re-binds every live value by re-reading) with the '
@@ -168,7 +173,8 @@ CLAIMED['C15'] = dict(
          'counter_like_nan/negative, quantile_out_of_range, count_not_integral, timestamp_backwards/partial, duplicate_label, exemplar_ineligible/too_long, bucket_bound_nan, '
          'hist_bounds_not_increasing, hist_counts_not_cumulative, hist_no_inf_document, hist_count_ne_inf_document (all document level; the two histogram-group rules with the closing event explicit). Suffix lists, comparison operators, '
          'limits and keywords are re-extracted each run; valid generated documents × 26 rule-violating transformations × every applicable position are fed to the real parser.',
-    note='Document-level theorems (offending line anywhere, everything else arbitrary) for every rule of the statement; rejected_with_valueError composes them with om_parser_total (the error is ValueError). duplicate_label_document and exemplar_too_long_document are on rendered text. hist_no_inf_document / hist_count_ne_inf_document state the closing event explicitly (GroupClosed: the family closes or a sample of another group follows); not covered at document level: group lines repeating an earlier series at an unchanged timestamp, a count line preceding its buckets. Exemptions (run against the real parser each check): info timestamp order; order only between consecutive samples of a group; negative _gsum; _created; a line repeating a series at an unchanged timestamp is dropped; native-histogram lines bypass the family-name test; families without # TYPE and a _count line before its buckets are harness-only.',
+    note='Document-level theorems (offending line anywhere, everything else arbitrary) for every rule of the statement; rejected_with_valueError composes them with om_parser_total (the error is ValueError). duplicate_label_document and exemplar_too_long_document are on rendered text. hist_no_inf_document / hist_count_ne_inf_document state the closing event explicitly (GroupClosed: the family closes or a sample of another group follows); not covered at document level: group lines repeating an earlier series at an unchanged timestamp, a count line preceding its buckets. Exemptions (run against the real parser each check): info timestamp order; order only between consecutive samples of a group; negative _gsum; _created; a line repeating a series at an unchanged timestamp is dropped; native-histogram lines bypass the family-name test; families without # TYPE and a _count line before its buckets are harness-only.'
+         ' Every (document, rule) is also judged on a first and a second parse, after the valid base document and in a warmed-up interpreter (fork-per-request helpers): a differing outcome is reported as history-dependent.',
     ref='DESIGN.md 5 C15')
 
 CLAIMED['C12'] = dict(
